@@ -517,9 +517,86 @@ func (w *c01World) Run(c *kernel.RunCtx) {
 	}
 	w.apiBuilt(c, txs[0], extended)
 	w.fieldDecoders(c, txs[0], extended)
+	if !c.Failed() {
+		w.appendEdit(c, txs[0], extended)
+	}
 	if !c.Failed() && len(data) < 4000 {
 		w.wild(c, data)
 	}
+}
+
+// appendEdit: a decoded transaction is edited by growing ONE of its scripts (what Script.AppendOpcodes /
+// AppendPushData do); every other field must stay what was decoded, so the result serialises to the
+// reference encoding of the model with that one script grown.
+func (w *c01World) appendEdit(c *kernel.RunCtx, m *models.RTx, extended bool) {
+	type slot struct{ in, out, prev int }
+	var slots []slot
+	for i := range m.Ins {
+		slots = append(slots, slot{i, -1, 0})
+		if extended {
+			slots = append(slots, slot{i, -1, 1})
+		}
+	}
+	for i := range m.Outs {
+		slots = append(slots, slot{-1, i, 0})
+	}
+	if len(slots) < 2 {
+		return
+	}
+	c.Begin("append-edit")
+	sl := slots[c.Choose(len(slots))]
+	n := 1 + c.Choose(40)
+	route := c.Choose(3)
+	c.End()
+	enc, _ := m.Encode(extended, nil)
+	var tx *bt.Tx
+	var err error
+	c.Exec()
+	if pn := catch(func() {
+		switch route {
+		case 0:
+			tx, err = bt.NewTxFromBytes(append([]byte(nil), enc...))
+		case 1:
+			tx = &bt.Tx{}
+			_, err = tx.ReadFrom(kernel.NewStream(enc, kernel.Plan{}))
+		default:
+			var l bt.Txs
+			_, err = l.ReadFrom(kernel.NewStream(append(models.VarInt(1), enc...), kernel.Plan{}))
+			if err == nil && len(l) == 1 {
+				tx = l[0]
+			}
+		}
+	}); pn != "" || err != nil || tx == nil {
+		return // judged by the decoding oracles
+	}
+	mm := *m
+	mm.Ins = append([]models.RIn(nil), m.Ins...)
+	mm.Outs = append([]models.ROut(nil), m.Outs...)
+	tail := make([]byte, n)
+	for i := range tail {
+		tail[i] = 0x61 // OP_NOP
+	}
+	var sp **bscript.Script
+	var ms *[]byte
+	switch {
+	case sl.out >= 0:
+		sp, ms = &tx.Outputs[sl.out].LockingScript, &mm.Outs[sl.out].Script
+	case sl.prev == 1:
+		sp, ms = &tx.Inputs[sl.in].PreviousTxScript, &mm.Ins[sl.in].PrevScript
+	default:
+		sp, ms = &tx.Inputs[sl.in].UnlockingScript, &mm.Ins[sl.in].Script
+	}
+	if *sp == nil {
+		return
+	}
+	**sp = append(**sp, tail...)
+	*ms = append(append([]byte(nil), *ms...), tail...)
+	c.Count("probe.append_to_decoded_script", 1)
+	if d := cmpTx(tx, &mm, extended); d != "" {
+		c.Fail("aliasing", "Tx.ReadFrom", "appending %d bytes to one script of a decoded transaction (input %d / output %d, route %d) changed another field: %s", n, sl.in, sl.out, route, d)
+		return
+	}
+	reserialiseCheck(c, tx, &mm, extended, "after appending to one script of a decoded transaction")
 }
 
 // wild: arbitrary edits of a valid stream. Whatever comes out, the library and the reference parser
@@ -952,7 +1029,7 @@ func (w *c01World) sliceAPIs(c *kernel.RunCtx, data []byte, txs []*models.RTx, e
 func (w *c01World) apiBuilt(c *kernel.RunCtx, m *models.RTx, extended bool) {
 	c.Exec()
 	c.Begin("api")
-	style := c.Choose(2)
+	style := c.Choose(3)
 	nilPrev := c.Bool(1, 2)
 	brokenFirst := c.Bool(1, 6)
 	c.End()
@@ -974,7 +1051,16 @@ func (w *c01World) apiBuilt(c *kernel.RunCtx, m *models.RTx, extended bool) {
 		for j := range id {
 			id[j] = mi.TxIDWire[31-j]
 		}
-		if style == 0 {
+		if style == 2 {
+			// the string door: hex txid, hex previous script
+			if err := tx.From(hex.EncodeToString(id), mi.Vout, hex.EncodeToString(mi.PrevScript), mi.PrevSats); err != nil {
+				c.Fail("api", "Tx.From", "From rejected a 64-digit txid and a hex script: %v", err)
+				return
+			}
+			in := tx.Inputs[len(tx.Inputs)-1]
+			in.SequenceNumber = mi.Seq
+			in.UnlockingScript = scriptPtr(mi.Script)
+		} else if style == 0 {
 			var ls = scriptPtr(mi.PrevScript)
 			if len(mi.PrevScript) == 0 && nilPrev {
 				ls = nil
@@ -1000,8 +1086,58 @@ func (w *c01World) apiBuilt(c *kernel.RunCtx, m *models.RTx, extended bool) {
 			tx.Inputs = append(tx.Inputs, in)
 		}
 	}
-	for _, o := range m.Outs {
+	for k, o := range m.Outs {
+		if style == 2 && len(o.Script) == 25 && sameBytes(o.Script, p2pkh(o.Script[3:23])) {
+			// helper doors for pay-to-public-key-hash outputs
+			var err error
+			if k%2 == 0 {
+				err = tx.AddP2PKHOutputFromPubKeyHashStr(hex.EncodeToString(o.Script[3:23]), o.Sats)
+			} else {
+				err = tx.PayTo(scriptPtr(o.Script), o.Sats)
+			}
+			if err != nil {
+				c.Fail("api", "Tx.PayTo", "a P2PKH output helper rejected a well-formed template: %v", err)
+				return
+			}
+			c.Count("probe.output_helper_routes", 1)
+			continue
+		}
 		tx.AddOutput(&bt.Output{Satoshis: o.Sats, LockingScript: scriptPtr(o.Script)})
+	}
+	// per-part serialisers and the size getter must agree with the reference encoding of the same parts
+	{
+		std, _ := m.Encode(false, nil)
+		var sz int
+		if p := catch(func() { sz = tx.Size() }); p != "" || sz != len(std) {
+			c.Fail("reserialise", "Tx.Size", "Size() = %d (panic=%q), the standard serialisation has %d bytes", sz, p, len(std))
+			return
+		}
+		for i := range m.Ins {
+			one := &models.RTx{Ins: m.Ins[i : i+1]}
+			b, _ := one.Encode(false, nil)
+			want := b[5 : len(b)-5]
+			var got []byte
+			if p := catch(func() { got = tx.Inputs[i].Bytes(false) }); p != "" || !sameBytes(got, want) {
+				c.Fail("reserialise", "Input.Bytes", "input %d: Bytes(false) differs from the reference encoding (panic=%q): %s", i, p, firstDiff(got, want))
+				return
+			}
+			if i >= 3 {
+				break
+			}
+		}
+		for i := range m.Outs {
+			one := &models.RTx{Outs: m.Outs[i : i+1]}
+			b, _ := one.Encode(false, nil)
+			want := b[6 : len(b)-4]
+			var got []byte
+			if p := catch(func() { got = tx.Outputs[i].Bytes() }); p != "" || !sameBytes(got, want) {
+				c.Fail("reserialise", "Output.Bytes", "output %d: Bytes() differs from the reference encoding (panic=%q): %s", i, p, firstDiff(got, want))
+				return
+			}
+			if i >= 3 {
+				break
+			}
+		}
 	}
 	// an API-built tx knows its previous outputs, so compare as "extended"
 	mm := m
@@ -1167,6 +1303,16 @@ func (w *c01World) fieldDecoders(c *kernel.RunCtx, m *models.RTx, extended bool)
 				c.Fail("aliasing", "VarInt.Bytes", "after the caller overwrote / appended to the slice returned by VarInt(%d).Bytes(), VarInt(%d).Bytes() = %x, reference %x", v, w, again, models.VarInt(w))
 				return
 			}
+		}
+	}
+	// the slice door: same value and width as the reference, whatever follows the prefix
+	{
+		buf := append(append([]byte(nil), ref...), 0x77, 0xfd, 0xff, 0xff, 0xff, 0xff, 0xff, 0xff, 0xff)
+		var sv bt.VarInt
+		var sn int
+		if p := catch(func() { sv, sn = bt.NewVarIntFromBytes(buf) }); p != "" || uint64(sv) != v || sn != len(ref) {
+			c.Fail("varint", "NewVarIntFromBytes", "NewVarIntFromBytes(%x…) = (%d, %d) panic=%q, reference (%d, %d)", ref, uint64(sv), sn, p, v, len(ref))
+			return
 		}
 	}
 	st := kernel.NewStream(append(append([]byte(nil), ref...), 0x77), plan)
